@@ -61,10 +61,14 @@ func Combine(src, dst addr.IA, ups, cores, downs []*seg.PathSegment,
 	findAllIdentical bool) []Path {
 
 	solutions := newDMG(ups, cores, downs).GetPaths(vertexFromIA(src), vertexFromIA(dst))
-	paths := make([]Path, len(solutions))
+	paths := make([]Path, 0, len(solutions))
 	st := newHashState()
-	for i, solution := range solutions {
-		paths[i] = solution.Path(st)
+	for _, solution := range solutions {
+		// Combinations that do not fit the SCION path header cannot be used.
+		if !solution.fitsPathHeader() {
+			continue
+		}
+		paths = append(paths, solution.Path(st))
 	}
 	paths = filterLongPaths(paths)
 	if !findAllIdentical {
